@@ -385,6 +385,9 @@ func init() {
 			if c.Idx%16 == 3 {
 				c20IndexForms(c, 900)
 			}
+			if c.Idx%16 == 5 {
+				c20WideSiblings(c, 950)
+			}
 			// two paths per batch come from a fixed list of array-only paths (they get array documents
 			// with empty arrays spelled with and without interior whitespace)
 			arrayPaths := []struct {
@@ -597,6 +600,70 @@ func renderNodes(ns []*oracle.Node) string {
 // lenient integer parser would take (leading zeros, base prefixes, underscores, exponents) against a
 // 12-element array. The reference
 // reads a run of decimal digits as a decimal number and rejects everything else.
+// c20WideSiblings: the parts a path does not select are stepped over by scanners that count brackets.
+// Members and elements that hold more containers side by side than the nesting limit allows in
+// depth (12000 arrays or objects, 3 levels deep) before, behind and as the selected part; the
+// expected parts are written out.
+func c20WideSiblings(c *rt.Ctx, sub0 int) {
+	rep := func(unit string, n int) string { return strings.TrimSuffix(strings.Repeat(unit+",", n), ",") }
+	wide := map[string]string{
+		"arrays-in-object":  `{"points":[` + rep("[0,1]", 12000) + `],"name":"n"}`,
+		"objects-in-object": `{"items":[` + rep(`{"k":[]}`, 12000) + `]}`,
+		"arrays-in-array":   `[` + rep("[[]]", 12000) + `]`,
+		"objects-in-array":  `[` + rep(`{"a":{}}`, 12000) + `]`,
+		"members-of-arrays": `{` + rep(`"m":[[1]]`, 12000) + `}`,
+	}
+	names := []string{"arrays-in-object", "objects-in-object", "arrays-in-array", "objects-in-array", "members-of-arrays"}
+	sub := sub0
+	for _, wn := range names {
+		w := wide[wn]
+		cases := []struct{ path, doc, want string }{
+			{"$.b", `{"big":` + w + `,"b":7}`, "7"},
+			{"$.b", `{"b":7,"big":` + w + `}`, "7"},
+			{"$.a.b", `{"a":{"x":` + w + `,"b":"s"},"z":` + w + `}`, `"s"`},
+			{"$[1]", `[` + w + `,8,` + w + `]`, "8"},
+			{"$[*].k", `[{"k":1,"w":` + w + `},{"w":` + w + `,"k":2}]`, "1 2"},
+			{"$.big", `{"a":1,"big":` + w + `}`, w},
+		}
+		for _, cs := range cases {
+			sub++
+			if !c.Cur(sub, "shapes=core\nwide sibling ("+wn+"), path "+cs.path) {
+				continue
+			}
+			p, err := gojson.CreatePath(cs.path)
+			if err != nil {
+				continue
+			}
+			var parts [][]byte
+			var eerr error
+			pan, msg, _ := rt.Guard(func() { parts, eerr = p.Extract([]byte(cs.doc)) })
+			c.Eval(1)
+			var got []string
+			for _, pt := range parts {
+				got = append(got, string(pt))
+			}
+			if pan || eerr != nil || strings.Join(got, " ") != cs.want {
+				show := strings.Join(got, " ")
+				if len(show) > 80 {
+					show = show[:80] + "…"
+				}
+				c.Violate(rt.Violation{Monitor: "path-select", Entry: "Extract", Kind: "selection-mismatch:wide-sibling", Ctx: wn,
+					Detail: fmt.Sprintf("path %s on a %d-byte document with a wide sibling (%s): got %q err=%v panic=%v %s", cs.path, len(cs.doc), wn, show, eerr, pan, msg), Sub: sub})
+			}
+			// the typed route as well
+			var v any
+			pan, msg, _ = rt.Guard(func() { eerr = p.Unmarshal([]byte(cs.doc), &v) })
+			c.Eval(1)
+			if pan || eerr != nil {
+				c.Violate(rt.Violation{Monitor: "path-select", Entry: "Path.Unmarshal", Kind: "selection-mismatch:wide-sibling", Ctx: wn,
+					Detail: fmt.Sprintf("path %s (wide sibling %s): err=%v panic=%v %s", cs.path, wn, eerr, pan, msg), Sub: sub})
+			}
+		}
+		c.NonTrivial("wide", wn)
+	}
+	c.Obs("wide_sibling_documents", int64(sub-sub0))
+}
+
 func c20IndexForms(c *rt.Ctx, sub0 int) {
 	doc := `[100,101,102,103,104,105,106,107,108,109,110,111]`
 	texts := []string{"0", "1", "7", "8", "9", "10", "11", "12", "00", "01", "07", "08", "09", "010", "011", "0010", "0x1", "0X1", "0b1", "0o7", "1_0", "1_1", "1e1", "1.0", "", "0x", "1a", "a1", "0e0", "123456789012345678"}
